@@ -73,8 +73,21 @@ def run_one(modname, idx, unit, timeout):
         mod.run_unit(unit, ctx)
     except Hang:
         ctx.violation("hang/unit-exceeded-watchdog", f"unit did not finish within {timeout}s (possible non-termination)", {"unit": unit})
-    except Exception:  # harness error, not a violation
-        err = traceback.format_exc()
+    except Exception as e:  # noqa
+        # An exception escaping from *library* code in a scenario the harness built inside the property's quantifier is
+        # a violation ("the operation works on these inputs"); anything else is a harness error and gives no verdict.
+        tb = traceback.extract_tb(e.__traceback__)
+        src = os.path.abspath(os.environ.get("CURIES_SRC", "/repo/src")) + os.sep
+        lib = [fr for fr in tb if os.path.abspath(fr.filename).startswith(src)]
+        if lib:
+            fr = lib[-1]
+            ctx.violation(
+                f"crash/{type(e).__name__}-in-{os.path.basename(fr.filename)}:{fr.name}",
+                f"unexpected {type(e).__name__}: {str(e)[:160]} (raised in {fr.name})",
+                {"unit": unit},
+            )
+        else:
+            err = traceback.format_exc()
     finally:
         signal.alarm(0)
         signal.signal(signal.SIGALRM, old)
